@@ -160,6 +160,7 @@ def run(rep, tier, seed):
         dict(name="alias_mat22_D3P2", D=3, P=2, pool="PoolMat22", acts="ActsAlias", idx="IdxSmall", maxlen=2, maxobjs=5),
         dict(name="arith_frame_D2", D=2, P=2, pool="PoolVec2", acts="ActsArith", scal="ScalSet", maxlen=1),
         dict(name="alias_D4", D=4, P=1, pool="PoolMat22", acts="ActsAlias", idx="IdxSmall", maxlen=1, maxobjs=5),
+        dict(name="alias_inplace_scalar_array", D=2, P=2, pool="PoolMat22", acts="ActsAliasS", idx="IdxSmall", scal="ScalOne", maxlen=2, maxobjs=5),
     ]
     if not q:
         configs += [
